@@ -6,7 +6,7 @@ import random
 import re
 import shutil
 from vflib import core
-from vflib.core import Broken, finish, validate_trace
+from vflib.core import Broken, finish, validate_trace, binding_selftest
 
 STEPS = {"cmp_ok": "@TestType Absolute;\n@Precision 0.5;\n@Test 'a.res' 'b.res' 1;\n",
          "cmp_fail": "@TestType Absolute;\n@Precision 0.5;\n@Test 'a.res' 'c.res' 1;\n",
@@ -101,6 +101,13 @@ def run(ctx):
         nev += len(ev)
         if i == 2:
             samples = ev[:8] + ev[-1:]
+        if v["accepted"] and not getattr(ctx, "binding_selftests", None):
+            def flip_verdict(e):
+                k = next((x for x in e if x["e"] == "End"), None)
+                if k is None:
+                    return False
+                k["ok"] = 1 - k["ok"]
+            binding_selftest(ctx, "system/TfelCheckTrace", "TfelCheckTrace.cfg", ev, flip_verdict, "a tfel-check log with the verdict of one check flipped")
         if not v["accepted"]:
             at = ev[v["maxl"] - 1] if 0 < v["maxl"] <= len(ev) else None
             ctx.violation("trace:rejected:%s:%s" % ((at or {}).get("e", "?"), "commands" if cmds else "comparisons"),
